@@ -1,6 +1,7 @@
 import ArgoVerif.Proofs.MemPoolPlace
 import ArgoVerif.Proofs.StackGeom
 import ArgoVerif.Proofs.SyncLifo
+import ArgoVerif.Model.MemOwner
 /-
 Props.C15 — descriptors and stacks: exclusive, conserved, any size.
 
@@ -471,5 +472,67 @@ example : (machine.run SyncLifo.init abaTrace).isSome = true := by decide
 example : (machineNoTag.run SyncLifo.init (abaTrace ++ [.popCasOk 1 10])).isSome = true := by decide
 
 end SyncLifo
+
+/-! ## who may use a local pool (the atomicity assumption of Model.MemPool, checked on traces) -/
+section MemOwner
+open ArgoVerif.Model.MemOwner
+
+/-- the discipline on one reported use -/
+def useOk : MemOwner.Ev → Prop
+  | .use x b alive => b = some x ∨ alive = false
+  | .useExt locked => locked = true
+
+/-- **C15, exclusive use of a local pool.**  In every trace accepted by Model.MemOwner (T3 validates every
+controlled-scheduler trace of the work-unit scenarios: joins and frees by ULTs that block inside `ABT_thread_free` and
+come back on another execution stream, migration, stream creation and join), each alloc/free on the local pool of
+stream `x` is performed by the thread running as `x`, or while no thread runs as `x`; the external pools are used under
+their lock.  Hence operations on one local pool never overlap and the atomic steps of Model.MemPool
+(`mempool_no_overlap`, `mempool_alloc_fresh`) describe the C code. -/
+theorem local_pool_used_by_owner (tr : List MemOwner.Ev) (s s' : MemOwner.St)
+    (h : MemOwner.machine.run s tr = some s') : ∀ ev ∈ tr, useOk ev := by
+  induction tr generalizing s with
+  | nil => intro ev hm; cases hm
+  | cons e es ih =>
+    intro ev hm
+    simp only [Machine.run] at h
+    cases hst : MemOwner.machine.step s e with
+    | none => simp [hst] at h
+    | some s1 =>
+      simp only [hst] at h
+      cases hm with
+      | head =>
+        cases e with
+        | use x b alive =>
+          simp only [MemOwner.machine, MemOwner.step] at hst
+          by_cases hb : b = some x
+          · exact Or.inl hb
+          · by_cases ha : alive = false
+            · exact Or.inr ha
+            · simp [hb, ha] at hst
+        | useExt l =>
+          simp only [MemOwner.machine, MemOwner.step] at hst
+          cases l <;> simp_all [useOk]
+      | tail _ hm' => exact ih s1 h ev hm'
+
+/-- two uses of the same local pool while its stream's thread is alive come from that one thread -/
+theorem local_pool_single_user (tr : List MemOwner.Ev) (s s' : MemOwner.St)
+    (h : MemOwner.machine.run s tr = some s') (x : MemOwner.ES) (b1 b2 : Option MemOwner.ES)
+    (h1 : MemOwner.Ev.use x b1 true ∈ tr) (h2 : MemOwner.Ev.use x b2 true ∈ tr) : b1 = b2 := by
+  have a1 := local_pool_used_by_owner tr s s' h _ h1
+  have a2 := local_pool_used_by_owner tr s s' h _ h2
+  simp only [useOk] at a1 a2
+  cases a1 with
+  | inl e1 => cases a2 with
+    | inl e2 => rw [e1, e2]
+    | inr e2 => cases e2
+  | inr e1 => cases e1
+
+/-- non-vacuity: the creator of stream 1 (running as 0) allocates stream 1's root ULT from stream 1's pool before its
+thread exists, stream 1 then uses its own pool; a free into stream 0's pool by a thread that has moved to stream 1 (the
+stale-handle pattern) is rejected -/
+example : (MemOwner.machine.run MemOwner.init [.use 1 (some 0) false, .use 1 (some 1) true, .useExt true]).isSome = true := by decide
+example : MemOwner.machine.run MemOwner.init [.use 0 (some 0) true, .use 0 (some 1) true] = none := by decide
+
+end MemOwner
 
 end ArgoVerif.Props.C15
